@@ -33,14 +33,14 @@ inductive Bit where
   | of (t : Expr) (i : Nat) (neg : Bool)      -- bit `i` of `t`, complemented if `neg`
   | p (t : Expr) (neg : Bool)                 -- the Boolean term `t` as a bit, complemented if `neg`
   | bin (k : BitK) (a b : Bit) (neg : Bool)   -- `a k b`, complemented if `neg`
-  | mux (c : Expr) (a b : Bit)                -- `if c then a else b`
+  | mux (c : Expr) (a b : Bit) (neg : Bool)   -- `if c then a else b`, complemented if `neg`
 
 def Bit.beq : Bit → Bit → Bool
   | .c a, .c b => a == b
   | .of t i ng, .of u j ng' => t == u && i == j && ng == ng'
   | .p t ng, .p u ng' => t == u && ng == ng'
   | .bin k a b ng, .bin k' a' b' ng' => decide (k = k') && Bit.beq a a' && Bit.beq b b' && ng == ng'
-  | .mux e a b, .mux e' a' b' => e == e' && Bit.beq a a' && Bit.beq b b'
+  | .mux e a b ng, .mux e' a' b' ng' => e == e' && Bit.beq a a' && Bit.beq b b' && ng == ng'
   | _, _ => false
 
 instance : BEq Bit := ⟨Bit.beq⟩
@@ -50,30 +50,48 @@ def Bit.not : Bit → Bit
   | .of t i ng => .of t i (!ng)
   | .p t ng => .p t (!ng)
   | .bin k a b ng => .bin k a b (!ng)
-  | .mux e a b => .mux e a.not b.not
+  | .mux e a b ng => .mux e a b (!ng)
 
-/-- bitwise operations: a literal bit simplifies (this is what makes masks work); two symbolic bits are kept as written,
-operands in the order of the node (claripy keeps the operand order when it distributes `Extract`) -/
+/-- a bit without its outermost complement, and that complement (a literal is the complement of `0` or `0` itself) -/
+def Bit.strip : Bit → Bit × Bool
+  | .c b => (.c false, b)
+  | .of t i ng => (.of t i false, ng)
+  | .p t ng => (.p t false, ng)
+  | .bin k a b ng => (.bin k a b false, ng)
+  | .mux e a b ng => (.mux e a b false, ng)
+
+/-- a bitwise operation on two symbolic bits: the same bit twice (up to the outermost complement) simplifies (`a ^ a = 0`,
+`a & a = a`, `a & ~a = 0`, …); otherwise the operation is kept as written, operands in the order of the node (claripy keeps
+the operand order when it distributes `Extract`) -/
+def Bit.mk (k : BitK) (x y : Bit) : Bit :=
+  if x.strip.1 == y.strip.1 then
+    match k with
+    | .xor => .c (x.strip.2 ^^ y.strip.2)
+    | .and => if x.strip.2 == y.strip.2 then x else .c false
+    | .or => if x.strip.2 == y.strip.2 then x else .c true
+  else .bin k x y false
+
+/-- bitwise operations: a literal bit simplifies (this is what makes masks work) -/
 def Bit.and : Bit → Bit → Bit
   | .c false, _ => .c false
   | .c true, x => x
   | _, .c false => .c false
   | x, .c true => x
-  | x, y => .bin .and x y false
+  | x, y => .mk .and x y
 
 def Bit.or : Bit → Bit → Bit
   | .c true, _ => .c true
   | .c false, x => x
   | _, .c true => .c true
   | x, .c false => x
-  | x, y => .bin .or x y false
+  | x, y => .mk .or x y
 
 def Bit.xor : Bit → Bit → Bit
   | .c false, x => x
   | .c true, x => x.not
   | x, .c false => x
   | x, .c true => x.not
-  | x, y => .bin .xor x y false
+  | x, y => .mk .xor x y
 
 /-- `if c then a else b` on bits: equal branches need no condition; two different literals are the condition itself -/
 def Bit.ite (e : Expr) (a b : Bit) : Bit :=
@@ -81,7 +99,7 @@ def Bit.ite (e : Expr) (a b : Bit) : Bit :=
   match a, b with
   | .c true, .c false => .p e false
   | .c false, .c true => .p e true
-  | _, _ => .mux e a b
+  | _, _ => .mux e a b false
 
 def zipBits (f : Bit → Bit → Bit) : List Bit → List Bit → Option (List Bit)
   | [], [] => some []
@@ -120,6 +138,13 @@ def iteCond : Expr → Option Expr
   | .app .ite [c, _, _] => some c
   | _ => none
 
+/-- what an `If` node adds to the opaque terms: its condition, and the term a negated condition negates -/
+def condTerms (self : Expr) : List Expr :=
+  match iteCond self with
+  | some (.app .not [c]) => [.app .not [c], c]
+  | some e => [e]
+  | none => []
+
 /-- bits of a node from the bits of its operands (`none`: the node is not looked into) -/
 def bitsOf (op : Op) (self : Expr) (obs : List (Option (List Bit))) : Option (List Bit) :=
   match op, obs with
@@ -137,6 +162,7 @@ def bitsOf (op : Op) (self : Expr) (obs : List (Option (List Bit))) : Option (Li
   | .bxor, some b0 :: r :: rest => foldBits Bit.xor (r :: rest) (some b0)
   | .ite, [_, some a, some b] =>
     match iteCond self with
+    | some (.app .not [c]) => if c.width.isNone then zipBits (Bit.ite c) b a else none   -- `If(Not(c), a, b)` is `If(c, b, a)`
     | some c => if c.width.isNone then zipBits (Bit.ite c) a b else none
     | none => none
   | .lshr, [some a, some _] =>
@@ -157,7 +183,7 @@ def bitsOf (op : Op) (self : Expr) (obs : List (Option (List Bit))) : Option (Li
 /-- normal form of a node from the normal forms of its operands: (bits, terms treated as opaque) -/
 def normApp (op : Op) (self : Expr) (subs : List (Option (List Bit) × List Expr)) : Option (List Bit) × List Expr :=
   match bitsOf op self (subs.map (·.1)) with
-  | some r => ((some r), (iteCond self).toList ++ subs.flatMap (·.2))
+  | some r => ((some r), condTerms self ++ subs.flatMap (·.2))
   | none => (opaqueBits self, [self])
 
 mutual
@@ -200,14 +226,6 @@ inductive PairNF where
   | triv
   | absurd
   | atom (a : EqAtom)
-
-/-- a bit without its outermost complement, and that complement (a literal is the complement of `0` or `0` itself) -/
-def Bit.strip : Bit → Bit × Bool
-  | .c b => (.c false, b)
-  | .of t i ng => (.of t i false, ng)
-  | .p t ng => (.p t false, ng)
-  | .bin k a b ng => (.bin k a b false, ng)
-  | .mux e a b => (.mux e a b, false)
 
 def Bit.xorNeg (x : Bit) (n : Bool) : Bit := if n then x.not else x
 
